@@ -25,7 +25,14 @@ func c13Value(r *core.Rng, next func() any) c13Val {
 		}
 		return in
 	}
-	switch r.Intn(12) {
+	switch r.Intn(13) {
+	case 11:
+		// a Stack (alias) at the far end of a long chain of pointers is a Stack all the same
+		d := []int{3, 9, 12, 64, 65, 70, 300}[r.Intn(7)]
+		if r.Bool() {
+			return c13Val{DeepPtr(AStack(inner()), d), true, fmt.Sprintf("%d pointers to an AStack", d)}
+		}
+		return c13Val{DeepPtr(inner(), d), true, fmt.Sprintf("%d pointers to a Stack", d)}
 	case 0:
 		return c13Val{inner(), true, "Stack"}
 	case 1:
@@ -71,6 +78,41 @@ func c13Run(c *core.Ctx, idx int) {
 	next := uniqueVals()
 	if idx%5 == 4 {
 		c13Cond(c, r, next)
+		return
+	}
+	if idx%1000 == 7 {
+		// the one Stack nobody thinks of offering: the receiver itself. CanNest() speaks about "a nested Stack", whichever.
+		// (Nothing here descends into the result, and the cycle is taken apart again at once: what the library does when
+		// it WALKS a self-containing stack is outside every statement.)
+		s := NewStackArgs(Kinds[r.Intn(5)])
+		forms := []string{"native", "*Stack", "AStack"}
+		f := r.Intn(3)
+		var self any = s
+		switch f {
+		case 1:
+			self = &s
+		case 2:
+			self = AStack(s)
+		}
+		nn := r.Chance(1, 3)
+		if nn {
+			s.SetNoNesting(true)
+		}
+		can := s.CanNest()
+		s.Push("a", self, 42)
+		l := s.Len()
+		if l == 3 {
+			s.Remove(1)
+		}
+		want := 3
+		if nn {
+			want = 2
+		}
+		if l != want || can == nn {
+			c.Violatef("self", map[string]any{"form": forms[f], "no_nesting": nn}, "CanNest()=%v (no-nesting %v); Push(\"a\", <the receiver itself as %s>, 42) left Len %d, expected %d", can, nn, forms[f], l, want)
+			return
+		}
+		c.Count("receiver-offered-to-itself")
 		return
 	}
 	kind := Kinds[r.Intn(5)]
